@@ -547,12 +547,14 @@ def _torn_candidates(fdata: bytes, version: int):
             text = d.decompress(parts[4]) + d.flush()
         except zlib.error:
             return None, "zlib-error-in-one-shot-decompression"
+        stream_complete = d.eof
     else:
         parts = fdata.split(b"\n", 3)
         if len(parts) < 4:
             return None, "header-incomplete"
         header = b"\n".join(parts[:3]) + b"\n"
         text = parts[3]
+        stream_complete = True  # plain text carries no end marker: a cut last line cannot be told from a final one
         if _exotic(header):
             return None, "exotic-separator"
     if _exotic(text):
@@ -562,7 +564,9 @@ def _torn_candidates(fdata: bytes, version: int):
     if version == 1:
         complete = [ln for ln in complete if ln]  # MyST's v1 reader skips empty lines
     variants = [b"".join(ln + b"\n" for ln in complete)]
-    if tail:
+    if tail and stream_complete:
+        # a last line without newline is an entry only when the stream is known to be complete: the cut-off line
+        # of a truncated zlib stream is not ("only complete lines are emitted", DESIGN §6.4)
         variants.append(variants[0] + tail)
     cands = []
     for body in variants:
